@@ -14,6 +14,19 @@ from .values import (V, TPy, Unsupported, box, unbox, coerce, fresh, ite, join_t
 from .expr import DeadPath, I
 
 
+def _occurs(var, term) -> bool:
+    seen, stack = set(), [term]
+    while stack:
+        t = stack.pop()
+        if t.get_id() in seen:
+            continue
+        seen.add(t.get_id())
+        if t.get_id() == var.get_id():
+            return True
+        stack.extend(t.children())
+    return False
+
+
 class HeapMixin:
     # ---- raw heap maps ------------------------------------------------------------
     def heap_map(self, st: State, key: str, val_sort) -> z3.ArrayRef:
@@ -94,6 +107,20 @@ class HeapMixin:
                     t = self.type_from_annotation(ann)
                     if t is not None:
                         return cur.name, t
+            # a field the sidecar does not declare but the constructor annotates (self.x: T = ...): use the annotation
+            init = cur.methods.get("__init__")
+            if init is not None:
+                for nd in ast.walk(init):
+                    if (isinstance(nd, ast.AnnAssign) and isinstance(nd.target, ast.Attribute)
+                            and isinstance(nd.target.value, ast.Name) and nd.target.value.id == "self"):
+                        nm = nd.target.attr
+                        if nm.startswith("__") and not nm.endswith("__"):
+                            nm = f"_{cur.name.lstrip('_')}{nm}"
+                        if nm == attr:
+                            t = self.type_from_annotation(nd.annotation)
+                            if t is not None:
+                                self.note_assumption(f"field {cur.name}.{attr} typed from its annotation (not declared in the sidecar)")
+                                return cur.name, t
             nxt = None
             for b in cur.bases:
                 cand = self.repo.resolve_class(cur.module, b)
@@ -147,6 +174,12 @@ class HeapMixin:
                 decl, ftype = ft
                 return self.read_field(st, base.z, decl, attr, ftype)
             m = self.repo.lookup_method(ci, attr)
+            if m is None and attr.startswith("_") and "__" in attr[1:]:
+                # name-mangled private method: self.__discard is stored as __discard in the class body
+                plain = attr[attr.index("__", 1):]
+                m = self.repo.lookup_method(ci, plain)
+                if m is not None:
+                    attr = plain
             if m is not None:
                 mci, mnode = m
                 decs = mci.decorators.get(attr, [])
@@ -213,6 +246,7 @@ class HeapMixin:
         return "list<" + seq_theory(elt).name + ">"
 
     def list_content(self, st, lst: V):
+        st = getattr(lst, "_snap", None) or st
         th = theory_of(lst.t)
         return self.heap_read(st, self.list_key(lst.t.elt), th.S, lst.z)
 
@@ -250,10 +284,12 @@ class HeapMixin:
         return name, ks, vs
 
     def dict_dom(self, st, d: V):
+        st = getattr(d, "_snap", None) or st
         name, ks, vs = self.dict_keys(d.t)
         return self.heap_read(st, name + ".dom", z3.ArraySort(ks, Bool), d.z)
 
     def dict_val(self, st, d: V):
+        st = getattr(d, "_snap", None) or st
         name, ks, vs = self.dict_keys(d.t)
         return self.heap_read(st, name + ".val", z3.ArraySort(ks, vs), d.z)
 
@@ -262,13 +298,29 @@ class HeapMixin:
 
     def dict_get(self, st, d: V, k: V) -> V:
         v = unbox(z3.Select(self.dict_val(st, d), box(k)), d.t.val)
+        if getattr(d, "_snap", None) is not None:
+            v._snap = d._snap
+        # heap well-formedness: a container stored in a dict is an allocated object (so it cannot alias one
+        # allocated later); guarded by membership, since the value at an absent key is unconstrained
+        if is_ref_type(d.t.val) and not isinstance(d.t.val, TOpaque):
+            al = self.alloc_map(st)
+            fact = z3.Implies(self.dict_has(st, d, k), z3.And(v.z != prelude().null, z3.Select(al, v.z)))
+            used = [b for b in self.bound_vars if _occurs(b, v.z)]
+            if used:
+                fact = z3.ForAll(used, fact, patterns=[v.z])
+            if self.spec_mode:
+                if self._spec_facts is not None:
+                    self._spec_facts.append(z3.Implies(z3.And(*st.guards), fact) if st.guards else fact)
+            else:
+                st.pc.append(z3.Implies(z3.And(*st.guards), fact) if st.guards else fact)
         return v
 
     def dict_set(self, st, d: V, k: V, val: V):
         name, ks, vs = self.dict_keys(d.t)
         dom, vm = self.dict_dom(st, d), self.dict_val(st, d)
         self.heap_write(st, name + ".dom", z3.ArraySort(ks, Bool), d.z, z3.Store(dom, box(k), True))
-        self.heap_write(st, name + ".val", z3.ArraySort(ks, vs), d.z, z3.Store(vm, box(k), box(coerce(val, d.t.val))))
+        self.heap_write(st, name + ".val", z3.ArraySort(ks, vs), d.z,
+                        z3.Store(vm, box(k), box(self.coerce_to(st, val, d.t.val))))
 
     def dict_del(self, st, d: V, k: V):
         name, ks, vs = self.dict_keys(d.t)
@@ -294,6 +346,7 @@ class HeapMixin:
         return f"set<{es.name()}>", es
 
     def set_dom(self, st, s: V):
+        st = getattr(s, "_snap", None) or st
         name, es = self.set_key(s.t)
         return self.heap_read(st, name, z3.ArraySort(es, Bool), s.z)
 
@@ -315,6 +368,12 @@ class HeapMixin:
         v = V(t, r)
         name, es = self.set_key(t)
         self.heap_write(st, name, z3.ArraySort(es, Bool), r, z3.K(es, False))
+        return v
+
+    def retype_empty_set(self, st, s: V, t: TSet) -> V:
+        v = V(t, s.z)
+        name, es = self.set_key(t)
+        self.heap_write(st, name, z3.ArraySort(es, Bool), s.z, z3.K(es, False))
         return v
 
     def card_axioms(self, f, ks):
